@@ -117,6 +117,66 @@ func (d *Dom) Sym(name string, w int, signed, msbFirst bool) *Bits {
 
 func (d *Dom) SymInfo(name string) *SymInfo { return d.syms[name] }
 
+// SymGroup creates several unsigned symbols at once with an explicit BDD variable order given as
+// (symbol index, bit) pairs; bits not listed are created afterwards, LSB first.
+func (d *Dom) SymGroup(names []string, widths []int, order [][2]int) []*Bits {
+	out := make([]*Bits, len(names))
+	infos := make([]*SymInfo, len(names))
+	for k, n := range names {
+		if _, dup := d.syms[n]; dup {
+			unsupported("duplicate symbol %s", n)
+		}
+		infos[k] = &SymInfo{Name: n, W: widths[k], Vars: make([]int, widths[k])}
+		out[k] = &Bits{W: widths[k], b: make([]Node, widths[k])}
+		for i := range infos[k].Vars {
+			infos[k].Vars[i] = -1
+		}
+	}
+	mk := func(k, i int) {
+		if infos[k].Vars[i] >= 0 {
+			return
+		}
+		infos[k].Vars[i] = d.M.NumVars()
+		out[k].b[i] = d.M.NewVar(fmt.Sprintf("%s[%d]", names[k], i))
+	}
+	for _, o := range order {
+		mk(o[0], o[1])
+	}
+	for k := range names {
+		for i := 0; i < widths[k]; i++ {
+			mk(k, i)
+		}
+		d.syms[names[k]] = infos[k]
+		d.symOrder = append(d.symOrder, names[k])
+	}
+	return out
+}
+
+// SymInterleaved creates several w-bit symbols whose BDD variables are interleaved bit by bit
+// (so that comparing them with each other stays linear in size).
+func (d *Dom) SymInterleaved(names []string, w int, signed bool) []*Bits {
+	out := make([]*Bits, len(names))
+	infos := make([]*SymInfo, len(names))
+	for k, n := range names {
+		if _, dup := d.syms[n]; dup {
+			unsupported("duplicate symbol %s", n)
+		}
+		infos[k] = &SymInfo{Name: n, W: w, Signed: signed, Vars: make([]int, w)}
+		out[k] = &Bits{W: w, Signed: signed, b: make([]Node, w)}
+	}
+	for i := 0; i < w; i++ {
+		for k, n := range names {
+			infos[k].Vars[i] = d.M.NumVars()
+			out[k].b[i] = d.M.NewVar(fmt.Sprintf("%s[%d]", n, i))
+		}
+	}
+	for k, n := range names {
+		d.syms[n] = infos[k]
+		d.symOrder = append(d.symOrder, n)
+	}
+	return out
+}
+
 // Bits materialises the bit functions.
 func (x *Bits) Bits() []Node {
 	if x.b == nil {
